@@ -218,6 +218,12 @@ def s07_time_fields(E):
                 yield pc, "panic", r
                 continue
             yield pc, z3.And(r.d == 1, r.p["Some"][0] == (t / div) % mod), "Time::%s accessor" % name
+    fdiv = z3.Function("f64_div", z3.RealSort(), z3.RealSort(), z3.RealSort())
+    for k, pc, r in run(E, "second", ["&time::Time"], [time_of(t)]):
+        if k == "panic":
+            yield pc, "panic", r
+            continue
+        yield pc, z3.And(r.d == 1, r.p["Some"][0] == fdiv(z3.ToReal(t % 60_000_000), z3.ToReal(z3.IntVal(1_000_000)))), "Time::second = microseconds of the minute / 1e6 (as f64)"
 
 
 # ------------------------------------------------------------------------------------- C12
@@ -266,6 +272,12 @@ def s13_dt(E):
                 yield pc, "panic", r
                 continue
             yield pc, z3.And(r.d == 1, r.p["Some"][0] == expect), "IntervalDT::%s signed accessor" % name
+    fdiv = z3.Function("f64_div", z3.RealSort(), z3.RealSort(), z3.RealSort())
+    for k, pc, r in run(E, "second", ["&interval::IntervalDT"], [dt_of(v)]):
+        if k == "panic":
+            yield pc, "panic", r
+            continue
+        yield pc, z3.And(r.d == 1, r.p["Some"][0] == fdiv(z3.ToReal(sg * (mag % 60_000_000)), z3.ToReal(z3.IntVal(1_000_000)))), "IntervalDT::second = signed microseconds of the minute / 1e6 (as f64)"
     for k, pc, r in run(E, "negate", ["interval::IntervalDT"], [dt_of(v)]):
         if k == "panic":
             yield pc, "panic", r
@@ -335,3 +347,341 @@ def s16_try_from_usecs(E):
             yield pc, z3.And(is_ok(r) == good, z3.Implies(is_ok(r), ok_payload(r).f[0].f[0] == u)), "try_from_usecs accepts exactly in-range whole seconds"
         else:
             yield pc, z3.And(z3.Not(good), r.p["Err"][0].d == ERR["DateOutOfRange"]), "try_from_usecs error"
+
+
+# ------------------------------------------------------------------------------------- C05 / C02
+# TryFrom<NaiveDateTime>: the value the parsed fields denote, with the microsecond carry.
+def naive(E, ylo=-999_999_999, yhi=999_999_999):
+    y = E.int_in("year", "i32", ylo, yhi)
+    mo = E.int_in("month", "u32")
+    d = E.int_in("day", "u32")
+    h = E.int_in("hour", "u32")
+    mi = E.int_in("minute", "u32")
+    s = E.int_in("sec", "u32")
+    us = E.int_in("usec", "u32")
+    neg = E.bool_in("negative")
+    ampm = Enum(0, {}, "Option")  # consumed by the field loop, not by the conversions
+    st = Struct([y, mo, d, h, mi, s, us, ampm, neg], "format::NaiveDateTime")
+    return st, (y, mo, d, h, mi, s, us, neg)
+
+
+def days_before_year(y):
+    y1 = y - 1
+    return y1 * 365 + y1 / 4 - y1 / 100 + y1 / 400
+
+
+def doy(y, m, d):
+    feb = z3.If(leap(y), 29, 28)
+    before = z3.If(m == 1, 0, z3.If(m == 2, 31, z3.If(m == 3, 31 + feb, z3.If(m == 4, 62 + feb, z3.If(m == 5, 92 + feb,
+             z3.If(m == 6, 123 + feb, z3.If(m == 7, 153 + feb, z3.If(m == 8, 184 + feb, z3.If(m == 9, 215 + feb,
+             z3.If(m == 10, 245 + feb, z3.If(m == 11, 276 + feb, 306 + feb)))))))))))
+    return before + d
+
+
+def daynum(y, m, d):
+    """days since 1970-01-01 of a real date, counted from 0001-01-01 (no Julian-day formula)"""
+    return days_before_year(y) + doy(y, m, d) - 1 + DAY_MIN
+
+
+def err_is(r, name):
+    return z3.And(r.d == 1, r.p["Err"][0].d == ERR[name]) if "Err" in r.p else z3.BoolVal(False)
+
+
+def ymd_error(r, y, mo, d):
+    """the documented error precedence for an invalid (y, m, d)"""
+    return z3.If(z3.Or(y < 1, y > 9999), err_is(r, "DateOutOfRange"),
+                 z3.If(z3.Or(mo < 1, mo > 12), err_is(r, "InvalidMonth"),
+                       z3.If(z3.Or(d < 1, d > 31), err_is(r, "InvalidDay"), err_is(r, "InvalidDate"))))
+
+
+def hms_error(r, h, mi, s):
+    return z3.If(h >= 24, err_is(r, "TimeOutOfRange"), z3.If(mi >= 60, err_is(r, "InvalidMinute"), err_is(r, "InvalidSecond")))
+
+
+def conv(E, ret, st):
+    f = E.find("try_from", ["format::NaiveDateTime"], "std::result::Result<%s, error::Error>" % ret)
+    for pc, out in E.run(f, [st], []):
+        yield out[0], pc, out[1]
+
+
+def s05_conv_date(E):
+    st, (y, mo, d, h, mi, s, us, neg) = naive(E)
+    for k, pc, r in conv(E, "date::Date", st):
+        if k == "panic":
+            yield pc, "panic", r
+            continue
+        ok = valid_ymd(y, mo, d)
+        if "Ok" in r.p:
+            yield pc, z3.If(ok, z3.And(is_ok(r), ok_payload(r).f[0] == daynum(y, mo, d)), ymd_error(r, y, mo, d)), "Date from fields"
+        else:
+            yield pc, z3.And(z3.Not(ok), ymd_error(r, y, mo, d)), "Date from fields (error)"
+
+
+def s05_conv_time(E):
+    st, (y, mo, d, h, mi, s, us, neg) = naive(E)
+    for k, pc, r in conv(E, "time::Time", st):
+        if k == "panic":
+            yield pc, "panic", r
+            continue
+        fields = z3.And(h < 24, mi < 60, s < 60)
+        total = h * 3_600_000_000 + mi * 60_000_000 + s * 1_000_000 + us
+        exp_ok = z3.And(fields, total < D)
+        val = ok_payload(r).f[0] == total if "Ok" in r.p else z3.BoolVal(False)
+        yield pc, z3.If(exp_ok, z3.And(is_ok(r), val),
+                        z3.If(fields, err_is(r, "TimeOutOfRange"), hms_error(r, h, mi, s))), "Time from fields with microsecond carry"
+
+
+def s05_conv_ts(E):
+    st, (y, mo, d, h, mi, s, us, neg) = naive(E)
+    for k, pc, r in conv(E, "timestamp::Timestamp", st):
+        if k == "panic":
+            yield pc, "panic", r
+            continue
+        dok = valid_ymd(y, mo, d)
+        fields = z3.And(h < 24, mi < 60, s < 60)
+        total = daynum(y, mo, d) * D + h * 3_600_000_000 + mi * 60_000_000 + s * 1_000_000 + us
+        exp_ok = z3.And(dok, fields, total <= TS_MAX)
+        val = ok_payload(r).f[0] == total if "Ok" in r.p else z3.BoolVal(False)
+        yield pc, z3.If(exp_ok, z3.And(is_ok(r), val),
+                        z3.If(z3.Not(dok), ymd_error(r, y, mo, d),
+                              z3.If(z3.Not(fields), hms_error(r, h, mi, s), err_is(r, "DateOutOfRange")))), "Timestamp from fields with carry"
+
+
+def s05_conv_od(E):
+    st, (y, mo, d, h, mi, s, us, neg) = naive(E)
+    for k, pc, r in conv(E, "oracle::Date", st):
+        if k == "panic":
+            yield pc, "panic", r
+            continue
+        dok = valid_ymd(y, mo, d)
+        fields = z3.And(h < 24, mi < 60, s < 60)
+        total = daynum(y, mo, d) * D + h * 3_600_000_000 + mi * 60_000_000 + s * 1_000_000 + us
+        exp_ok = z3.And(dok, fields, total <= TS_MAX)
+        val = ok_payload(r).f[0].f[0] == total - total % 1_000_000 if "Ok" in r.p else z3.BoolVal(False)
+        yield pc, z3.If(exp_ok, z3.And(is_ok(r), val), r.d == 1), "OracleDate from fields: timestamp value floored to the second"
+
+
+def s05_conv_ym(E):
+    st, (y, mo, d, h, mi, s, us, neg) = naive(E)
+    E.assume(z3.If(neg, y <= 0, y >= 0))
+    for k, pc, r in conv(E, "interval::IntervalYM", st):
+        if k == "panic":
+            yield pc, "panic", r
+            continue
+        ay = z3.If(y < 0, -y, y)
+        months = ay * 12 + mo
+        in_range = z3.Or(ay < 178_000_000, z3.And(ay == 178_000_000, mo == 0))
+        exp_ok = z3.And(in_range, mo < 12)
+        val = ok_payload(r).f[0] == z3.If(neg, -months, months) if "Ok" in r.p else z3.BoolVal(False)
+        yield pc, z3.If(exp_ok, z3.And(is_ok(r), val),
+                        z3.If(z3.Not(in_range), err_is(r, "IntervalOutOfRange"), err_is(r, "InvalidMonth"))), "IntervalYM from sign, years, months"
+
+
+def s05_conv_dt(E):
+    st, (y, mo, d, h, mi, s, us, neg) = naive(E)
+    for k, pc, r in conv(E, "interval::IntervalDT", st):
+        if k == "panic":
+            yield pc, "panic", r
+            continue
+        fields = z3.And(h < 24, mi < 60, s < 60, us <= 1_000_000)
+        total = d * D + h * 3_600_000_000 + mi * 60_000_000 + s * 1_000_000 + us
+        exp_ok = z3.And(fields, d <= 100_000_000, total <= DT_MAX)
+        val = ok_payload(r).f[0] == z3.If(neg, -total, total) if "Ok" in r.p else z3.BoolVal(False)
+        yield pc, z3.If(exp_ok, z3.And(is_ok(r), val), r.d == 1), "IntervalDT from sign and fields with the microsecond carry"
+        # the statement's own example: a fraction that rounds up to a whole second is carried
+        yield pc, z3.Implies(z3.And(us == 1_000_000, h < 24, mi < 60, s < 60, d < 100_000_000), is_ok(r)), "carry of 1000000 us is accepted"
+
+
+def s05_conv_od_contract(E):
+    """modular: Timestamp::try_from is replaced by its contract (proved by s05_conv_ts)"""
+    st, (y, mo, d, h, mi, s, us, neg) = naive(E, 1, 9999)
+    dok = valid_ymd(y, mo, d)
+    fields = z3.And(h < 24, mi < 60, s < 60)
+    total = daynum(y, mo, d) * D + h * 3_600_000_000 + mi * 60_000_000 + s * 1_000_000 + us
+    exp_ok = z3.And(dok, fields, total <= TS_MAX)
+    tv = z3.Int("ts_value")
+    E.assume(z3.Implies(exp_ok, tv == total))
+    herr = E.int_in("havoc_err", "u8", 0, 15)
+
+    def stub(eng, args, pcs, callee):
+        if "Timestamp" not in callee:
+            raise Unsupported("unexpected try_from " + callee)
+        yield pcs, ("ret", Enum(z3.If(exp_ok, 0, 1), {"Ok": [ts_of(tv)], "Err": [Enum(herr, {}, "error::Error")]}, "Result"))
+    E.stubs["try_from"] = (lambda c: True, stub)
+    f = E.find("try_from", ["format::NaiveDateTime"], "std::result::Result<oracle::Date, error::Error>")
+    for pc, out in E.run(f, [st], []):
+        if out[0] == "panic":
+            yield pc, "panic", out[1]
+            continue
+        r = out[1]
+        val = ok_payload(r).f[0].f[0] == total - total % 1_000_000 if "Ok" in r.p else z3.BoolVal(False)
+        yield pc, z3.If(exp_ok, z3.And(is_ok(r), val), r.d == 1), "OracleDate from fields = denoted timestamp floored to the second"
+
+
+s05_conv_od = s05_conv_od_contract
+
+# ------------------------------------------------------------------------------------- C16 / C17
+OD_METHODS = ["trunc_century", "trunc_year", "trunc_iso_year", "trunc_quarter", "trunc_month", "trunc_week",
+              "trunc_iso_week", "trunc_month_start_week", "trunc_day", "trunc_sunday_start_week", "trunc_hour",
+              "trunc_minute", "round_century", "round_year", "round_iso_year", "round_quarter", "round_month",
+              "round_week", "round_iso_week", "round_month_start_week", "round_day", "round_sunday_start_week",
+              "round_hour", "round_minute", "add_interval_ym", "sub_interval_ym", "last_day_of_month"]
+
+
+def floor_sec(u):
+    return u - u % 1_000_000
+
+
+def s17_od_delegation(E, which):
+    """An Oracle-style date behaves as the timestamp of its whole second: the operation number
+    `which` applied through OracleDate is the Timestamp operation on the same instant, floored to
+    the second, errors passed through.  The Timestamp operation itself is havoc'd here (it is
+    decided by the C09/C10/C11 obligations); what is decided is the delegation and the flooring."""
+    name = OD_METHODS[which]
+    k = E.int_in("secs", "i64", TS_MIN // 1_000_000, TS_MAX // 1_000_000)
+    u = k * 1_000_000
+    months = E.int_in("months", "i32", -YM_MAX, YM_MAX)
+    hu = E.int_in("havoc_ts", "i64", TS_MIN, TS_MAX)
+    hok = E.bool_in("havoc_ok")
+    herr = E.int_in("havoc_err", "u8", 0, 15)
+    called = []
+
+    def stub(eng, args, pcs, callee):
+        if "imestamp" not in callee:
+            raise Unsupported("unexpected callee " + callee)
+        called.append(callee)
+        if name == "last_day_of_month":
+            yield pcs, ("ret", ts_of(hu))
+        else:
+            yield pcs, ("ret", Enum(z3.If(hok, 0, 1), {"Ok": [ts_of(hu)], "Err": [Enum(herr, {}, "error::Error")]}, "Result"))
+    inner = "add_interval_ym" if name == "sub_interval_ym" else name
+    E.stubs[inner] = (lambda c: "imestamp" in c, stub)
+    cands = [f for f in E.by_last[name] if f.name.startswith("oracle::")]
+    if len(cands) != 1:
+        raise Unsupported("oracle %s: %d candidates" % (name, len(cands)))
+    args = [od_of(u)]
+    if "interval_ym" in name:
+        args.append(Struct([months], "interval::IntervalYM"))
+    n = 0
+    for pc, out in E.run(cands[0], args, []):
+        if out[0] == "panic":
+            yield pc, "panic", out[1]
+            continue
+        n += 1
+        r = out[1]
+        if name == "last_day_of_month":
+            yield pc, r.f[0].f[0] == floor_sec(hu), "%s = timestamp result floored" % name
+            continue
+        okv = ok_payload(r).f[0].f[0] == floor_sec(hu) if "Ok" in r.p else z3.BoolVal(False)
+        errv = r.p["Err"][0].d == herr if "Err" in r.p else z3.BoolVal(False)
+        yield pc, z3.If(hok, z3.And(r.d == 0, okv), z3.And(r.d == 1, errv)), "%s = timestamp result floored, errors passed through" % name
+    if not called:
+        raise Unsupported("the Timestamp operation was never called: delegation structure changed")
+
+
+def s16_interval_dt(E):
+    """adding / subtracting a day-time interval = the timestamp result floored to the second"""
+    k = E.int_in("secs", "i64", TS_MIN // 1_000_000, TS_MAX // 1_000_000)
+    u = k * 1_000_000
+    i = E.int_in("i", "i64", -DT_MAX, DT_MAX)
+    for name, sg in (("add_interval_dt", 1), ("sub_interval_dt", -1)):
+        cands = [f for f in E.by_last[name] if f.name.startswith("oracle::")]
+        for pc, out in E.run(cands[0], [od_of(u), dt_of(i)], []):
+            if out[0] == "panic":
+                yield pc, "panic", out[1]
+                continue
+            r = out[1]
+            exact = u + sg * i
+            inr = z3.And(exact >= TS_MIN, exact <= TS_MAX)
+            okv = ok_payload(r).f[0].f[0] == floor_sec(exact) if "Ok" in r.p else z3.BoolVal(False)
+            yield pc, z3.If(inr, z3.And(r.d == 0, okv), err_is(r, "DateOutOfRange")), "OracleDate::%s = floor(u +- i), DateOutOfRange outside" % name
+
+
+def s16_add_days(E):
+    """add_days: the (havoc'd) timestamp result rounded to the nearest second, ties away from zero"""
+    k = E.int_in("secs", "i64", TS_MIN // 1_000_000, TS_MAX // 1_000_000)
+    u = k * 1_000_000
+    hu = E.int_in("havoc_ts", "i64", TS_MIN, TS_MAX)
+    hok = E.bool_in("havoc_ok")
+    herr = E.int_in("havoc_err", "u8", 0, 15)
+    days = z3.Real("days")
+
+    def stub(eng, args, pcs, callee):
+        yield pcs, ("ret", Enum(z3.If(hok, 0, 1), {"Ok": [ts_of(hu)], "Err": [Enum(herr, {}, "error::Error")]}, "Result"))
+    E.stubs["add_days"] = (lambda c: "imestamp" in c, stub)
+    cands = [f for f in E.by_last["add_days"] if f.name.startswith("oracle::")]
+    for pc, out in E.run(cands[0], [od_of(u), days], []):
+        if out[0] == "panic":
+            yield pc, "panic", out[1]
+            continue
+        r = out[1]
+        x = z3.Int("rounded")
+        if "Ok" in r.p:
+            x = ok_payload(r).f[0].f[0]
+        dist = x - hu
+        nearest = z3.And(x % 1_000_000 == 0, dist <= 500_000, dist >= -500_000,
+                         z3.Implies(dist == 500_000, hu > 0), z3.Implies(dist == -500_000, hu < 0))
+        # the rounded value that must exist in the integers
+        lo = hu - hu % 1_000_000
+        e = z3.If(hu - lo > 500_000, lo + 1_000_000, z3.If(hu - lo < 500_000, lo, z3.If(hu > 0, lo + 1_000_000, lo)))
+        post_ok = z3.If(e <= TS_MAX, z3.And(r.d == 0, nearest, x == e), err_is(r, "DateOutOfRange"))
+        errv = r.p["Err"][0].d == herr if "Err" in r.p else z3.BoolVal(False)
+        yield pc, z3.If(hok, post_ok, z3.And(r.d == 1, errv)), "OracleDate::add_days rounds the timestamp result to the nearest second"
+
+
+# ------------------------------------------------------------------------------------- C10 / C11
+def s10_ts_clock_units(E):
+    """Timestamp trunc/round to day, hour and minute over every valid timestamp (pure microsecond
+    arithmetic on top of the split)"""
+    u = E.int_in("u", "i64", TS_MIN, TS_MAX)
+    n = u / D
+    t = u % D
+    H, M = 3_600_000_000, 60_000_000
+    cases = [("trunc_day", n * D), ("trunc_hour", n * D + (t / H) * H), ("trunc_minute", n * D + (t / M) * M),
+             ("round_day", (n + z3.If(t >= D // 2, 1, 0)) * D),
+             ("round_hour", n * D + ((t + H // 2) / H) * H), ("round_minute", n * D + ((t + M // 2) / M) * M)]
+    for name, e in cases:
+        cands = [f for f in E.by_last[name] if f.name.startswith("timestamp::")]
+        if len(cands) != 1:
+            raise Unsupported("timestamp %s" % name)
+        for pc, out in E.run(cands[0], [ts_of(u)], []):
+            if out[0] == "panic":
+                yield pc, "panic", out[1]
+                continue
+            r = out[1]
+            okv = ok_payload(r).f[0] == e if "Ok" in r.p else z3.BoolVal(False)
+            yield pc, z3.If(e <= TS_MAX, z3.And(r.d == 0, okv), err_is(r, "DateOutOfRange")), "Timestamp::%s" % name
+
+
+# ------------------------------------------------------------------------------------- C15
+BIN_TYPES = [("date::Date", "visit_i32", "i32", DAY_MIN, DAY_MAX, 1),
+             ("timestamp::Timestamp", "visit_i64", "i64", TS_MIN, TS_MAX, 1),
+             ("time::Time", "visit_i64", "i64", 0, D - 1, 1),
+             ("interval::IntervalYM", "visit_i32", "i32", -YM_MAX, YM_MAX, 1),
+             ("interval::IntervalDT", "visit_i64", "i64", -DT_MAX, DT_MAX, 1),
+             ("oracle::Date", "visit_i64", "i64", TS_MIN, TS_MAX, 1_000_000)]
+
+
+def raw_of(v):
+    while isinstance(v, Struct):
+        v = v.f[0]
+    return v
+
+
+def s15_binary_decode(E, which):
+    """the binary visitor of type number `which`: every integer payload either yields exactly that
+    in-range (whole-second) count or an error"""
+    ty, meth, ity, lo, hi, unit = BIN_TYPES[which]
+    v = E.int_in("payload", ity)
+    cands = [f for f in E.by_last[meth] if f.name.startswith("serialize::") and ("Result<%s," % ty) in f.ret]
+    if len(cands) != 1:
+        raise Unsupported("visitor %s for %s: %d candidates" % (meth, ty, len(cands)))
+    visitor = Struct([], "visitor")
+    for pc, out in E.run(cands[0], [visitor, v], []):
+        if out[0] == "panic":
+            yield pc, "panic", out[1]
+            continue
+        r = out[1]
+        good = z3.And(v >= lo, v <= hi, v % unit == 0)
+        okv = raw_of(ok_payload(r)) == v if "Ok" in r.p else z3.BoolVal(False)
+        yield pc, z3.If(good, z3.And(r.d == 0, okv), r.d == 1), "binary payload -> in-range value or error (%s)" % ty
